@@ -496,7 +496,20 @@ let op_scan r = function
       (* at every Read call: with k bytes delivered so far, every complete line within the
          first k bytes that is forwarded at all has already been written; and no Read is
          issued once the line that ends the dump has been delivered *)
-      if not (List.mem "known:K1" r.flags) && is_prefix i_fwd content_s then begin
+      (* a run of separator lines is K1 territory (every other one is withheld, and identical lines cannot be told
+         apart in the forwarded bytes): the line-level statement below is not evaluated on such inputs; the count-based
+         prop:C02:separator-run-withheld covers them *)
+      let has_sep_run =
+        let ls, _ = split_lines content_s in
+        let rec go = function
+          | a :: (b :: _ as t) ->
+            let st l = let l = if is_suffix "\n" l then String.sub l 0 (String.length l - 1) else l in
+                       if is_suffix "\r" l then String.sub l 0 (String.length l - 1) else l in
+            (st a = "==================" && st b = "==================") || go t
+          | _ -> false in
+        go ls in
+      if has_sep_run then tag r "sep-run";
+      if not (List.mem "known:K1" r.flags) && not has_sep_run && is_prefix i_fwd content_s then begin
         let nf = String.length i_fwd in
         let delivered = ref 0 in
         let end_line =
@@ -611,7 +624,7 @@ let op_cut r = function
       let sched, final = (match signal with
         | "chunkd" -> (chunks (), "fail:7")
         | "chunke" -> (chunks (), "eof")
-        | "fail" -> (string_of_int (String.length content_s + 1), "fail:7")
+        | "fail" -> (String.concat "," (List.init (cut / 16384 + 2) (fun _ -> string_of_int (String.length content_s + 1))), "fail:7")
         | "faild" -> ("-", "fail:7")
         | "zeros" -> (zeros (), "eof")
         | "failz" -> (zeros (), "fail:7")
@@ -747,7 +760,8 @@ let rune_count_s (s : string) = int_of_nat (M.rune_count (bytes_of_string s))
 
 let rec op_pp r = function
   | [content; level; pf; lit; banner; palette; plain; pe; color; ce; filt; fe; mat; me; ngor; junks; det; def] ->
-    if def <> "1" then flag r "prop:C02:pp-default-mode-differs-from-plain-with-nothing-on-disk";
+    if def = "H" then flag r "prop:C02:pp-html-mode-loses-pass-through-text"
+    else if def <> "1" then flag r "prop:C02:pp-default-mode-differs-from-plain-with-nothing-on-disk";
     op_pp r [content; level; pf; lit; banner; palette; plain; pe; color; ce; filt; fe; mat; me; ngor; junks; det]
   | [content; level; pf; lit; banner; palette; plain; pe; color; ce; filt; fe; mat; me; ngor; junks; det] ->
     if det <> "1" then flag r "prop:C06:pp-nondeterministic";
